@@ -160,6 +160,17 @@ func harnessC07P2P(reqBits types.AccessMode) {
 		fx.attach(sess, actor, false)
 	}
 	mode := ((verifMode("reqMode") & reqBits) | types.ModeRead).String()
+	if !verifNondetBool("withMode") {
+		mode = "" // default / re-invite
+	}
+	if verifNondetBool("peerHasLeft") {
+		// the other participant unsubscribed earlier: marked removed in the live topic, soft-deleted in the store
+		pud := t.perUser[other]
+		pud.deleted = true
+		t.perUser[other] = pud
+		now := types.TimeNow()
+		fx.store.subs[verifSubKey(t.name, other)].DeletedAt = &now
+	}
 	target := []types.Uid{actor, other, verifStranger}[verifChoose("target", 3)]
 	msg := &ClientComMessage{Id: "r1", AsUser: actor.UserId(), AuthLvl: int(auth.LevelAuth), Original: other.UserId(), RcptTo: t.name,
 		Timestamp: types.TimeNow(), sess: sess, init: true, MetaWhat: constMsgMetaSub}
@@ -176,6 +187,15 @@ func harnessC07P2P(reqBits types.AccessMode) {
 		p := t.perUser[u]
 		verifAssert(p.modeWant&^types.ModeCP2P == 0 && p.modeGiven&^types.ModeCP2P == 0, "p2p-modes-within-JRWPA")
 		verifAssert(p.modeWant.IsApprover() && p.modeGiven.IsApprover(), "p2p-modes-keep-approve")
+		peer := fx.uids[0]
+		if u == peer {
+			peer = fx.uids[1]
+		}
+		verifAssert(t.original(u) == peer.UserId(), "p2p-topic-shows-each-participant-the-other")
+		if row := fx.store.subs[verifSubKey(t.name, u)]; row != nil {
+			verifAssert(row.ModeWant&^types.ModeCP2P == 0 && row.ModeGiven&^types.ModeCP2P == 0, "stored-p2p-modes-within-JRWPA")
+			verifAssert(row.ModeWant.IsApprover() && row.ModeGiven.IsApprover(), "stored-p2p-modes-keep-approve")
+		}
 	}
 	verifReach("end")
 }
